@@ -22,12 +22,12 @@ TICK = 2.0 ** -20
 
 # ------------------------------------------------------------------------------- scripted checker
 def run_scripted(job):
-    from scenic.core.requirements import SamplingRequirement
-    from scenic.core.sample_checking import WeightedAcceptanceChecker
+    from scenic.core.requirements import BlanketCollisionRequirement, IntersectionRequirement, SamplingRequirement
+    from scenic.core.sample_checking import BasicChecker, WeightedAcceptanceChecker
 
     class Stub(SamplingRequirement):
         def __init__(self, idx, optional):
-            super().__init__(optional=optional)
+            SamplingRequirement.__init__(self, optional=optional)
             self.idx = idx
 
         def falsifiedByInner(self, sample):
@@ -36,6 +36,30 @@ def run_scripted(job):
         @property
         def violationMsg(self):
             return f"stub {self.idx}"
+
+    class StubBlanket(Stub, BlanketCollisionRequirement):     # isinstance(...) is all BasicChecker looks at
+        pass
+
+    class StubInter(Stub, IntersectionRequirement):
+        pass
+
+    def run_basic(h):
+        """the REAL BasicChecker over the same requirement table: verdict per step"""
+        n = h["n"]
+        reqs = []
+        for i in range(n):
+            cls = StubBlanket if i == h.get("blanket", -1) else (StubInter if h["inter"][i] else Stub)
+            reqs.append(cls(i, bool(h["opt"][i])))
+        ch = BasicChecker(bool(h["icc"]))
+        ch.setRequirements(reqs)
+        kept = [r.idx for r in ch.requirements]
+        out = []
+        for act, fals, _ in h["steps"][:60]:
+            for r, a in zip(reqs, act):
+                r.active = bool(a)
+            res = ch.checkRequirements([bool(x) for x in fals])
+            out.append("accept" if res is None else ("reject " + res[5:] if isinstance(res, str) and res.startswith("stub ") else "other:" + repr(res)[:60]))
+        return dict(kept=kept, verdicts=out)
 
     clock = dict(t=1024.0, durs=[], calls=0)
 
@@ -85,7 +109,8 @@ def run_scripted(job):
             out.append(steps)
     finally:
         time.perf_counter = real
-    return dict(results=out)
+    basic = [run_basic(h) if "inter" in h else None for h in job["histories"]]
+    return dict(results=out, basic=basic)
 
 
 # ------------------------------------------------------------------------------- real programs
